@@ -14,10 +14,12 @@ import (
 	"github.com/sergi/go-diff/diffmatchpatch"
 	"gopkg.in/src-d/go-git.v4/plumbing"
 	"gopkg.in/src-d/go-git.v4/plumbing/object"
+	"gopkg.in/src-d/hercules.v10/internal/burndown"
 	"gopkg.in/src-d/hercules.v10/internal/core"
 	items "gopkg.in/src-d/hercules.v10/internal/plumbing"
 	"gopkg.in/src-d/hercules.v10/internal/plumbing/identity"
 	"gopkg.in/src-d/hercules.v10/leaves"
+	"gopkg.in/src-d/hercules.v10/verifharness/hv"
 )
 
 const missing = (1 << 18) - 2
@@ -456,6 +458,19 @@ func main() {
 			}()
 			if !ok {
 				break
+			}
+			// Go-side statement of C07 on the analysis level: after the merge no line of any participating branch
+			// still carries the merge mark (every line was resolved to a real tick or to the merge tick)
+			for _, b := range all {
+				bf, _, _, _ := leaves.VerifBurndownState(g.brs[b])
+				for fname, nodes := range bf {
+					for _, nd := range nodes[:len(nodes)-1] {
+						if nd[1]&burndown.TreeMergeMark == burndown.TreeMergeMark {
+							hv.Fail("merge-mark-left", fmt.Sprintf(`{"seed":%d,"case":%d,"branch":%d,"file":%q}`, seed, it, b, fname),
+								fmt.Sprintf("after the merge of branches %v, branch %d still has unresolved (merge-marked) lines from line %d of %s", all, b, nd[0], fname))
+						}
+					}
+				}
 			}
 			g.obs()
 			// the other branches are disposed; branch 1 goes on
